@@ -165,6 +165,10 @@ def Loop.raceFree (l : Loop) : Bool := l.accs.all l.siteOk
 def Loop.inexactReductions (l : Loop) : List String :=
   l.accs.filterMap fun a => match a with | .reduction v _ false => some v | _ => none
 
+/-- the generated obligation of a loop: race free *and* no reduction on a float type (OpenMP combines the partial
+    results in an order that depends on the number of threads: the rounding differs) -/
+def Loop.deterministic (l : Loop) : Bool := l.raceFree && l.inexactReductions.isEmpty
+
 /-- first offending site, for the report -/
 def Loop.firstBad (l : Loop) : Option Acc := l.accs.find? fun a => !l.siteOk a
 
